@@ -111,3 +111,80 @@ func TestC11KeyRotation(t *testing.T) {
 	}
 	ev.Exhaustive(fmt.Sprintf("%d rounds x {named key, pool key}: key used, replaced under the same name, removed/restored; standalone verification and the server side of the exchange at every stage", rounds))
 }
+
+// cachingReader is a CredentialReader of the kind the documentation invites: it reads each file once and hands
+// out the SAME slice on every later call.
+type cachingReader struct {
+	mu    sync.Mutex
+	cache map[string][]byte
+	orig  map[string][]byte
+}
+
+func (r *cachingReader) ReadCredential(path string) ([]byte, error) {
+	r.mu.Lock()
+	defer r.mu.Unlock()
+	if b, ok := r.cache[path]; ok {
+		return b, nil
+	}
+	b, err := os.ReadFile(path)
+	if err != nil {
+		return nil, err
+	}
+	r.cache[path], r.orig[path] = b, append([]byte(nil), b...)
+	return b, nil
+}
+
+// TestC11CachingReader: with a caching credential reader the n-th use of a signing key behaves like the first:
+// the valid token verifies every time, a token under a key the server does not hold never does, and the
+// reader's buffers come back untouched.
+func TestC11CachingReader(t *testing.T) {
+	rd := &cachingReader{cache: map[string][]byte{}, orig: map[string][]byte{}}
+	credReader = rd
+	defer func() { credReader = nil }()
+	bad := 0
+	fail := func(v string) {
+		if bad < 4 {
+			bad++
+			kit.Violation("C11", v, map[string]any{"part": "caching-reader"})
+			t.Errorf("C11 violated: %s", v)
+		}
+	}
+	for _, spec := range []TokSpec{{"named", "ok", "future", "recent"}, {"pool-nokid", "ok", "future", "recent"}} {
+		good := build(spec)
+		foreignKey := kit.Scramble(env.RawKey) // what the key FILE holds: not a key the server holds
+		if spec.Key != "named" {
+			foreignKey = kit.Scramble(env.PoolKey)
+		}
+		hdr := map[string]any{"alg": "HS256", "typ": "JWT"}
+		if spec.Key == "named" {
+			hdr["kid"] = env.KeyID
+		}
+		now := time.Now().Unix()
+		ffull, fsig := kit.RefSign(foreignKey, spec.Key != "named", hdr, map[string]any{"sub": "root@verif.test", "iss": env.Issuer, "iat": now - 30, "exp": now + 3600, "jti": "f"})
+		ftext := ffull[:strings.LastIndex(ffull, ".")]
+		for use := 1; use <= 6; use++ {
+			if _, err := security.VerifyIDToken(good.full, verifyCfg()); err != nil {
+				fail(fmt.Sprintf("use #%d of the %s key through a caching credential reader: the valid token is rejected: %v", use, spec.Key, err))
+			}
+			if _, err := security.VerifyIDToken(ffull, verifyCfg()); err == nil {
+				fail(fmt.Sprintf("use #%d of the %s key through a caching credential reader: a token signed with the scrambled file contents (not a key the server holds) verifies", use, spec.Key))
+			}
+			if use%2 == 0 {
+				if ok, _ := tokenHandshake(good.text, good.sig); !ok {
+					fail(fmt.Sprintf("use #%d (%s key, caching reader): the exchange with the valid token fails", use, spec.Key))
+				}
+				if ok, user := tokenHandshake(ftext, fsig); ok {
+					fail(fmt.Sprintf("use #%d (%s key, caching reader): the exchange accepts a token under a foreign key (identity %q)", use, spec.Key, user))
+				}
+			}
+			ev.Case("caching-reader/"+spec.Key, fmt.Sprintf("cache:%s:%d", spec.Key, use))
+		}
+	}
+	rd.mu.Lock()
+	for p, b := range rd.cache {
+		if string(b) != string(rd.orig[p]) {
+			fail("the credential reader's buffer for " + filepath.Base(p) + " was modified by the library")
+		}
+	}
+	rd.mu.Unlock()
+}
